@@ -85,6 +85,7 @@ Inductive op :=
   | OOvEnter (o : override)          (* with client.payload_override(..): *)
   | OOvExit
   | OCall (c : call) (replies : list (Z * item))   (* arrival times relative to the start of the call *)
+  | OCallSendFault (c : call) (code : Z)           (* the same call on a connection whose send() fails after writing *)
   | OSetCfg (slot v : Z)
   | OAdvance (dt : Z).
 
@@ -130,6 +131,13 @@ Definition enc_sdata_resp (o : option iresp) : list Z :=
     end
   end.
 
+Fixpoint upto_first_send (tr : list ev) : option (list ev) :=
+  match tr with
+  | [] => None
+  | EvS p :: _ => Some [EvS p]
+  | e :: tl => match upto_first_send tl with Some l => Some (e :: l) | None => None end
+  end.
+
 (* one operation: (observable output, configuration vector, client state, clock) *)
 Definition step_op (cfgv : list Z) (st : cstate) (now : Z) (o : op) : list Z * list Z * cstate * Z :=
   match o with
@@ -143,6 +151,14 @@ Definition step_op (cfgv : list Z) (st : cstate) (now : Z) (o : op) : list Z * l
     ((if (slot =? 6) && negb ((v =? 2006) || (v =? 2013) || (v =? 2020)) then [2; err_code EConfig] else []),
      set_nth cfgv (Z.to_nat slot) v, st, now)
   | OAdvance dt => ([], cfgv, st, now + dt)
+  | OCallSendFault c code =>
+    (* the connection's send() raises an error of class `code` after the frame has been written: the call ends there, with
+       that error; nothing is read, nothing is sent again, the client state is untouched *)
+    let '(out, st', t, _, tr) := run_call (cfg_of cfgv) st c now [] in
+    match upto_first_send tr with
+    | Some pre => (2 :: code :: 0 :: enc_trace pre ++ [now], cfgv, st, now)
+    | None => (enc_outcome enc_sdata_resp out ++ enc_trace tr ++ [t], cfgv, st', t)
+    end
   | OCall c replies =>
     let s := map (fun '(d, it) => (now + d, it)) replies in
     let '(out, st', t, _, tr) := run_call (cfg_of cfgv) st c now s in
@@ -263,6 +279,12 @@ Fixpoint decode_ops (n : nat) (a : list Z) (b : list bytes) : list op :=
         let b1 := skipn (Z.to_nat ncb) b in
         let '(reps, a3, b2) := decode_replies (Z.to_nat nfr) a2 b1 in
         OCall (decode_call id args cb) reps :: decode_ops k a3 b2
+      | _ => []
+      end
+    | 7 :: code :: id :: nargs :: a' =>
+      let args := firstn (Z.to_nat nargs) a' in
+      match skipn (Z.to_nat nargs) a' with
+      | ncb :: a2 => OCallSendFault (decode_call id args (firstn (Z.to_nat ncb) b)) code :: decode_ops k a2 (skipn (Z.to_nat ncb) b)
       | _ => []
       end
     | 5 :: slot :: v :: a' => OSetCfg slot v :: decode_ops k a' b
